@@ -435,6 +435,11 @@ var wlBrokerBurst = Workload{
 			w := world.New(cfg)
 			b := world.NewBroker(bcfg)
 			s := w.NewSession(peerHandler(PeerOpts{AckDelay: ackDelay, DupRegack: dupRegack}), b.Handler())
+			// in a quarter of the cases every packet of the broker arrives in two TCP segments 150 ms apart
+			// (longer than the gateway's connection poll interval)
+			if (i/12)%4 == 3 {
+				s.Segment = 150 * time.Millisecond
+			}
 			synctest.Wait()
 			send := func(p *snref.Pkt) { say("client sends %s", p); s.SNSendP(p); synctest.Wait() }
 			send(snref.Connect(clientID, 60, false, true))
@@ -484,7 +489,7 @@ var wlBrokerBurst = Workload{
 			handleLeaks(c, g)
 			w.WaitHarness()
 		})
-		g.Desc = strings.Join(g.Script, ";") + fmt.Sprintf("|ack-delay=%v|dup-regack=%v|", ackDelay, dupRegack) + cfgString(pre)
+		g.Desc = strings.Join(g.Script, ";") + fmt.Sprintf("|ack-delay=%v|dup-regack=%v|segmented=%v|", ackDelay, dupRegack, (i/12)%4 == 3) + cfgString(pre)
 		g.Items, g.RestOut = g.Session(0)
 		return g
 	},
